@@ -19,7 +19,7 @@ LEVEL = "model_checking"
 RULE = ("E2: all schedules with <= K deviations from the default (deliver oldest / next app step / next timer) over the menu "
         "drop, duplicate, reorder, delay, early app step, server reply mode (piggyback/separate CON/separate NON/silent), "
         "forged responses (token+-1, sniffed token from other IP/port, replay of a retired response), RST, ICMP error, "
-        "sendmsg OSError, shutdown (also with a request submitted while it is under way), withdrawal of a request by the application (at once, held back, in flight); distinct = distinct schedule; states = distinct world digests at choice points")
+        "sendmsg OSError (two errno values each, one of which Python maps to a builtin exception class), a retry that re-sends the same Message object, shutdown (also with a request submitted while it is under way), withdrawal of a request by the application (at once, held back, in flight); distinct = distinct schedule; states = distinct world digests at choice points")
 ASSUMPTIONS = [
     "liveness is asserted as event => completion (RFC 7252 gives a NON or already-ACKed request no time-out)",
     "non-observe requests only (observe token life cycle is C07)",
@@ -47,12 +47,26 @@ SCENARIOS = {
     # the application loses interest in r0 in the very step in which it issued it (before anything has been sent): whatever the
     # server answers later on that token is a response to nothing
     "S-REQ-earlywithdraw": [("r0", "CON", "S1", "withdraw-now"), ("r1", "CON", "S2")],
+    # an application-level retry: the application gives up on r0 and sends the very same Message object again (it still
+    # carries the token and message ID the library put into it); an answer to the first attempt is an answer to nothing
+    "S-REQ-retry": [("r0", "NON", "S1"), None, ("r1", "NON", "S1", "resend:r0")],
+    # (non-confirmable only: a confirmable message object stays in the message layer's hands, which goes on retransmitting it,
+    # until its exchange is over - handing it in a second time before that is not a request the property speaks of)
 }
+
+
+class MidServer(RefServer):
+    """The payload also names the message ID of the request datagram it answers, so that an answer to an earlier attempt with
+    the same path and token is told from the answer to the current one."""
+
+    def answer_payload(self, src, msg):
+        return super().answer_payload(src, msg) + b"|%04x" % msg[2]
 
 
 class Req:
     def __init__(self, name, mtype, srv, flag=None):
         self.name, self.mtype, self.srv, self.flag = name, mtype, srv, flag
+        self.path = flag.split(":")[1] if flag and flag.startswith("resend:") else name
         self.obj = None
         self.done_calls = 0
         self.token = None
@@ -79,8 +93,8 @@ class MatchScenario(NetScenario):
         from ..world import World
         w = st.world = World()
         st.cli = w.add_context("cli", *CLI)
-        st.s1 = w.add_peer(RefServer("S1", *S1))
-        st.s2 = w.add_peer(RefServer("S2", *S2))
+        st.s1 = w.add_peer(MidServer("S1", *S1))
+        st.s2 = w.add_peer(MidServer("S2", *S2))
         st.reqs = []
         st.faults_used = set()
         st.shutdown_task = None
@@ -142,8 +156,17 @@ class MatchScenario(NetScenario):
                 await asyncio.sleep(0)
                 return await real(message)
             st.cli.ctx.find_remote_and_interface = slow
-        m = Message(code=GET, uri_path=[r.name], _mtype=CON if r.mtype == "CON" else NON)
-        m.remote = st.cli.remote(SRV[r.srv])
+        if r.flag and r.flag.startswith("resend:"):
+            first = [o for o in st.reqs if o.name == r.path][0]
+            if not first.obj.response.done():
+                first.withdrawn = True
+                first.obj.response.cancel()
+                st.world.loop.settle()
+            first.acked = True       # nobody waits for it any more
+            m = first.msg
+        else:
+            m = Message(code=GET, uri_path=[r.name], _mtype=CON if r.mtype == "CON" else NON)
+            m.remote = st.cli.remote(SRV[r.srv])
         r.msg = m
         r.obj = st.cli.ctx.request(m, handle_blockwise=False)
         r.obj.response.add_done_callback(lambda f, r=r: setattr(r, "done_calls", r.done_calls + 1))
@@ -162,8 +185,10 @@ class MatchScenario(NetScenario):
             return
         if 1 <= m[1] < 32:
             path = rc.opt(m[4], 11, b"").decode()
+            if any(r.path == path and r.mid == m[2] and r.first_tx is not None for r in st.reqs):
+                return      # a retransmission
             for r in st.reqs:
-                if r.name == path and r.first_tx is None:
+                if r.path == path and r.first_tx is None and r.obj is not None:
                     r.first_tx = dg.t
                     r.token = m[3]
                     r.mid = m[2]
@@ -199,7 +224,9 @@ class MatchScenario(NetScenario):
         for s in ("S1", "S2"):
             if any(r.srv == s for r in live):
                 out.append(("icmp:" + s, 1))
+                out.append(("icmp-timedout:" + s, 1))      # an errno that Python turns into a builtin (non-library) exception class
                 out.append(("senderr:" + s, 1))
+                out.append(("senderr-timedout:" + s, 1))
         if any(r.obj is not None for r in st.reqs):
             out.append(("shutdown", 1))
             # ... with one more request submitted by another task while the shutdown is under way
@@ -265,10 +292,10 @@ class MatchScenario(NetScenario):
                     st.violations.append(Violation("withdrawal-changed-other-request", before[o.name], self.snap1(o),
                                                    "tokenmanager.py:request", {}, key="withdraw-other"))
             self.expect_no_tx(st, nsent, label)
-        elif kind == "icmp":
+        elif kind in ("icmp", "icmp-timedout"):
             s = parts[1]
             concerned = [r for r in st.reqs if r.srv == s and self.outstanding(r) and r.first_tx is not None]
-            st.cli.receive_error(SRV[s], errno.ECONNREFUSED)
+            st.cli.receive_error(SRV[s], errno.ECONNREFUSED if kind == "icmp" else errno.ETIMEDOUT)
             w.loop.settle()
             for r in concerned:
                 if not r.obj.response.done():
@@ -279,8 +306,8 @@ class MatchScenario(NetScenario):
                 if r.srv != s and r.obj is not None and before[r.name] != self.snap1(r):
                     st.violations.append(Violation("error-hits-other-remote", before[r.name], self.snap1(r),
                                                    "tokenmanager.py:dispatch_error", {}, key="other-remote"))
-        elif kind == "senderr":
-            st.world.send_faults[("cli", SRV[parts[1]])] = errno.ENETUNREACH
+        elif kind in ("senderr", "senderr-timedout"):
+            st.world.send_faults[("cli", SRV[parts[1]])] = errno.ENETUNREACH if kind == "senderr" else errno.ETIMEDOUT
         elif kind.startswith("shutdown"):
             st.shut = True
             st.shutdown_task = w.loop.create_task(st.cli.ctx.shutdown())
@@ -418,7 +445,7 @@ class MatchScenario(NetScenario):
                                                        key=type(f.exception()).__name__))
                 else:
                     pl = f.result().payload
-                    want = (r.srv + "|" + r.name + "|").encode() + (r.token or b"").hex().encode()
+                    want = (r.srv + "|" + r.path + "|").encode() + (r.token or b"").hex().encode() + b"|%04x" % (r.mid or 0)
                     if pl != want:
                         st.violations.append(Violation("wrong-response-delivered", want.decode(), pl.decode("latin1"),
                                                        "tokenmanager.py:process_response", {}, key="wrong-payload"))
